@@ -271,3 +271,22 @@ package dispatch
 //@   loop 1 invariant rangeindex < len(ret("Route).Match")) && count("Dispatcher).groupAlert") == rangeindex + 1 && count("Route).Match") == 1
 //@   opaque Route).Match Dispatcher).groupAlert
 //@   noeffect Route).Match Dispatcher).groupAlert Tracer).Start Span).End Span).AddEvent Observe
+
+// C06/C05: a new aggregation group belongs to the route and group labels it is created for, takes its options from
+// that route, starts with an empty alert store of its own, and its first flush is scheduled after the route's
+// group_wait (a fresh group_wait for a recreated group).
+//@ func newAggrGroup
+//@   props C06 C05
+//@   nosafe
+//@   requires r != nil && logger != nil
+//@   after call store.NewAlerts assume res0 != nil
+//@   after call time.NewTimer assume res0 != nil
+//@   at call time.NewTimer assert [first-flush-after-group-wait] arg0 == r.RouteOpts.GroupWait
+//@   ensures [for-this-route-and-labels] result != nil && fresh(result) && result.labels == labels && result.opts != nil && result.matchers == r.Matchers
+//@   ensures [ids-of-the-route] count("Route).ID") == 1 && count("Route).Key") == 1 && result.routeID == ret("Route).ID") && result.routeKey == ret("Route).Key")
+//@   ensures [own-empty-store] count("store.NewAlerts") == 1 && result.alerts == ret("store.NewAlerts")
+//@   ensures [timer-set] count("time.NewTimer") == 1 && result.next == ret("time.NewTimer")
+//@   at call Route).ID assert [of-this-route] arg0 == r
+//@   at call Route).Key assert [of-this-route-key] arg0 == r
+//@   opaque Route).ID Route).Key store.NewAlerts marker.NewAlertMarker aggrGroup).GroupKey notify.WithAggrGroupID
+//@   noeffect Route).ID Route).Key store.NewAlerts marker.NewAlertMarker aggrGroup).GroupKey notify.WithAggrGroupID context.WithCancel uuid.NewRandom UUID).String Logger).With time.NewTimer
